@@ -180,10 +180,14 @@ fn case_strategy() -> BoxedStrategy<Case> {
         )
     })
     .prop_map(|(profile, net, client, server, mut streams)| {
-        // keep the transfer within ~400 connection-window steps per direction, so that the
+        // keep the transfer within ~400 connection-window steps per direction and within ~50 s of
+        // round trips per direction (each step of the connection window costs the sender one
+        // round trip, and a stream-count limit of 1 serialises the two directions), so that the
         // virtual-time deadline is a sound bound for every generated configuration
+        let rtt_us = (net.lat_c2s_us as u64 + net.lat_s2c_us as u64).max(1_000);
+        let steps = (50_000_000 / rtt_us).clamp(20, 400);
         for (receiver, params) in [(Side::Client, &client), (Side::Server, &server)] {
-            let budget = (params.max_data as u64 / 2).max(1) * 400;
+            let budget = (params.max_data as u64 / 2).max(1) * steps;
             let towards = |s: &StreamSpec| -> u64 {
                 if s.opener == receiver { s.reply as u64 } else { s.size as u64 }
             };
